@@ -117,7 +117,8 @@ def replay_bin():
 def setup():
     """MANIFEST.setup_cmd: build every variant the quick tier needs (others are built on demand)."""
     t0 = time.time()
-    todo = [("default", "vdev", "plain"), ("default", "vrel", "plain"), ("th2", "vdev", "plain")]
+    todo = [("default", "vdev", "plain"), ("default", "vrel", "plain"), ("th2", "vdev", "plain"),
+            ("th1", "vdev", "plain"), ("th8", "vdev", "plain"), ("16k", "vdev", "plain"), ("16k_th2", "vdev", "plain")]
     ok = True
     for g, p, v in todo:
         try:
